@@ -11,7 +11,7 @@ from .common import REAL_BUS, STUB_BUS, ASSUME_BUS, viol
 ID = "C15"
 ENGINE = "bussim"
 LEVEL = "exploration"
-RUNS = {"quick": 12000, "thorough": 600000}
+RUNS = {"quick": 30000, "thorough": 1500000}
 BUDGET_S = {"quick": 45, "thorough": 480}
 BATCH = 200
 RULE = ("one run = one bus history (several sources, traffic drawn from all 418 definitions with boundary-biased random "
